@@ -47,6 +47,19 @@ def mutations(valid: bytes, rng: random.Random, n: int) -> list[bytes]:
     return out
 
 
+def single_byte_sweep(valid: bytes, stride: int = 1) -> list[bytes]:
+    """Every position (or every stride-th) x a small alphabet of replacement bytes: deterministic, so that 'the one byte that matters'
+    (a digit turned into 0, a length byte, an opcode) is always hit."""
+    out: list[bytes] = []
+    for i in range(0, len(valid), stride):
+        for v in {0x00, 0x30, 0x29, 0xFF, valid[i] ^ 0x01, valid[i] ^ 0x20, (valid[i] + 1) & 0xFF}:
+            if v != valid[i]:
+                b = bytearray(valid)
+                b[i] = v
+                out.append(bytes(b))
+    return out
+
+
 def extreme_inputs(rng: random.Random, limit: int) -> list[bytes]:
     """Structurally extreme input up to the configured limit: deep nesting, very long tokens."""
     depth = min(limit // 2 - 8, 30000)
